@@ -76,6 +76,11 @@ Proof. vm_compute. repeat split. Qed.
 Theorem C06_user_queues_not_consumed_internally : internal_user_queue_consumers = 0.
 Proof. exact eq_refl. Qed.
 
+(* the buffer a reader gets is its own: once the dispatcher has handed a message to a queue it does not touch it again (a reader
+   on another thread may already have taken and freed it); count regenerated from bidib_handle_received_message on every run *)
+Theorem C06_no_use_after_handover : uses_after_handover = 0.
+Proof. exact eq_refl. Qed.
+
 (* readers racing the receiver: the three receiver-filled queues are touched only under their own mutex on every
    path of every public function except the two start functions, which create the queues before any thread exists
    (thread-safe or not: the receiver thread runs alongside bidib_send_sys_reset and bidib_stop too) and of the library's own threads; lock programs regenerated from the source on every run *)
